@@ -17,7 +17,13 @@ Three parts (DESIGN §4 C01):
    address-space limit on grammar-generated programs, byte-level mutants,
    arbitrary bytes and adversarial shapes, with all curves / levels / output
    options. Every exit status other than 0/1, every missing or inconsistent
-   summary line, every panic message and every time-out is a failing input."""
+   summary line, every panic message and every time-out is a failing input.
+4. run(ctx), stage `chain` (lib/props/c01chain.py; second audit): the per-definition
+   chain of Model.PipelineMirrors, extracted (coq/extract/chain.{v,ml}), on every
+   definition the real parser + desugarer produce for the single-file sources of
+   the run: the decidable hypotheses of the chain theorem evaluated, its conclusion
+   cross-checked, its outcome class compared with the real into_cfg + into_ssa
+   (harness/src/bin/liftfull.rs, mode `chain`)."""
 import base64
 import collections
 import concurrent.futures
@@ -936,6 +942,36 @@ def run_all(binary, cases, root, workers):
         return list(ex.map(one, range(len(cases))))
 
 
+def ready_properties():
+    try:
+        return set(open(os.path.join(common.VERIF, "manifest.d", "ready.txt")).read().split())
+    except OSError:
+        return set()
+
+
+def cites_verdict(ctx, unresolved, unchecked, ready):
+    """What follows from compiling coq/gen/PanicCites<Cnn>.v.  `unresolved`: a cited name is gone -> violation.
+    `unchecked`: a file of the cited property does not build, so Coq did not re-check the citation.  Second audit:
+    when that property is claimed ready (manifest.d/ready.txt) this is a VIOLATION (no failing input) - the theorems
+    it contributes discharge panic sites of the map; only for a property that is not claimed ready it is logged and
+    recorded in the evidence (citations_not_checked_dependency_broken)."""
+    for prop, out in unchecked:
+        common.log("panic-site inventory: citations of %s not re-checked by Coq, a file of %s does not build now: %s"
+                   % (prop, prop, " ".join(out.split())[-300:]))
+        if prop in ready:
+            ctx.violation("the theorems of %s that coq/PANIC_MAP.json cites could not be re-checked: %s is claimed ready "
+                          "(manifest.d/ready.txt) but a file of its cone does not build" % (prop, prop),
+                          {"broken": "gen/PanicCites%s.v (a dependency does not build)" % prop,
+                           "coq_output": out[-1200:]}, no_input=True)
+    if unresolved:
+        common.log("panic-site inventory: a cited theorem does not resolve:\n" + unresolved[0][1][-600:])
+        if not ctx.violations:
+            ctx.violation("a theorem of %s cited by coq/PANIC_MAP.json does not resolve in Coq (coq/gen/PanicCites%s.v "
+                          "does not compile)" % (unresolved[0][0], unresolved[0][0]),
+                          {"broken": "gen/PanicCites%s.v" % unresolved[0][0], "coq_output": unresolved[0][1],
+                           "inventory_diff": panicsites.unmapped_summary()}, no_input=True)
+
+
 def run(ctx, proofs):
     thorough = ctx.tier == "thorough"
     debug_bin = common.build_cli()
@@ -1134,27 +1170,7 @@ def run(ctx, proofs):
 
     # the theorems cited by the panic map must resolve in Coq (gen/PanicCites<Cnn>.v: one `Check` each)
     unresolved, unchecked, cites_n = panicsites.cites_check()
-    ready = set()
-    try:
-        ready = set(open(os.path.join(common.VERIF, "manifest.d", "ready.txt")).read().split())
-    except OSError:
-        pass
-    for prop, out in unchecked:
-        common.log("panic-site inventory: citations of %s not re-checked by Coq, a file of %s does not build now: %s"
-                   % (prop, prop, " ".join(out.split())[-300:]))
-        # a property that is claimed ready must build: its theorems discharge panic sites of the map
-        if prop in ready and not common.ALT:
-            ctx.violation("the theorems of %s that coq/PANIC_MAP.json cites could not be re-checked: %s is claimed ready "
-                          "(manifest.d/ready.txt) but a file of its cone does not build" % (prop, prop),
-                          {"broken": "gen/PanicCites%s.v (dependency does not build)" % prop,
-                           "coq_output": out[-1200:]}, no_input=True)
-    if unresolved:
-        common.log("panic-site inventory: a cited theorem does not resolve:\n" + unresolved[0][1][-600:])
-        if not ctx.violations:
-            ctx.violation("a theorem of %s cited by coq/PANIC_MAP.json does not resolve in Coq (coq/gen/PanicCites%s.v "
-                          "does not compile)" % (unresolved[0][0], unresolved[0][0]),
-                          {"broken": "gen/PanicCites%s.v" % unresolved[0][0], "coq_output": unresolved[0][1],
-                           "inventory_diff": panicsites.unmapped_summary()}, no_input=True)
+    cites_verdict(ctx, unresolved, unchecked, ready_properties())
 
     if not ctx.violations and proofs["failures"]:
         ctx.violation("proof obligations of C01 no longer check: " + "; ".join(proofs["failures"])[:700],
@@ -1217,13 +1233,17 @@ def run(ctx, proofs):
     ctx.assumptions += [
         "observed, not proved: the LALRPOP automaton and lexer, clap, codespan-reporting/termcolor, serde_sarif, std::fs, "
         "allocation and stack depth, wall-clock time (20 s watchdog, 4 GB address-space limit)",
-        "C01_pipeline_mirrors_never_panic composes the mirrors of include resolution, desugaring, lifting, dominator tree, "
-        "SSA construction and propagation; its hypotheses about the two unmirrored stages in between (the LALRPOP parser: "
-        "wf_template and ast_init_ok of its output; IR lifting of single statements: unversioned, claim-free statements "
-        "assigning declared locals) and about the SSA output (unique local definitions) are decidable but observed only "
-        "(C12/C13/C14/C18/C20 evaluate them on the real trees and graphs); the analysis passes and the output stage are not "
-        "part of the chain and remain premises of C01_pipeline_total; the mirrors are tied to the code by the "
-        "correspondence runs of their own properties",
+        "C01_pipeline_mirrors_never_panic composes the mirrors of include resolution, desugaring, renaming + lifting + IR lifting "
+        "(Model.LiftFull), dominator tree, SSA construction and propagation; the LALRPOP parser is a parameter of the chain (a panic "
+        "inside the automaton cannot be expressed in the theorem); its remaining hypotheses per body handed to lifting "
+        "(PipelineMirrors.body_ok: declaration keys after the renaming mirror pairwise different, literals non-negative, the SSA "
+        "output has unique local definitions) are decidable and EVALUATED by the stage `chain` on every definition the real parser + "
+        "desugarer produce for the explored sources (coverage chain.hypothesis_evaluations), together with is_block / "
+        "stmt_sugar_free / ast_init_flat / ast_init_ok of the real desugarer's output; wf_template of the parser's output is "
+        "evaluated by C18's engine; ssa_output_ok is a hypothesis about the output of the SSA mirror (C20's second premise), "
+        "evaluated, not derived; the analysis passes and the output stage are not part of the chain and remain premises of "
+        "C01_pipeline_total; the mirrors are tied to the code by the correspondence runs of their own properties and, by outcome "
+        "class per definition, by the stage `chain`",
         "the panic-site scanner is syntactic (regular expressions over the source with test modules removed); "
         "macro-generated or trait-dispatched panics inside dependencies are outside the inventory",
         "stdout is open (a closed stdout makes `expect(\"failed to write ...\")` fire; run-time environment, DESIGN §5.3)",
